@@ -94,6 +94,18 @@ class ProgBase(plumpy.Process):
 
             self.add_state_event_callback(StateEventHook.ENTERED_STATE, entered)
 
+    def on_paused(self, msg=None):
+        super().on_paused(msg)
+        rec = getattr(self, '_rec', None)
+        if rec is not None:
+            rec.ev('hook', 'paused')
+
+    def on_playing(self):
+        super().on_playing()
+        rec = getattr(self, '_rec', None)
+        if rec is not None:
+            rec.ev('hook', 'played')
+
     # -- recording --------------------------------------------------------------------------
     def _t(self, *item):
         item = list(item)
